@@ -814,6 +814,10 @@ func genC05(r *Run) {
 	add := func(b []byte) {
 		r.Add(eV6Dec, b)
 	}
+	oneHotBodies6(r, func(code uint16, body []byte) {
+		r.Add(eV6Opt, w16(int(code)), body)
+		add(append([]byte{1, 0, 0, 7}, tlvb(code, body)...))
+	})
 	// exhaustive TLV framings
 	codes := []uint16{1, 3, 5, 8, 25, 9, 0xffff}
 	lens := []int{0, 1, 2, 4, 12, 255}
@@ -1174,6 +1178,37 @@ func regroupNames(names []string, j int) bool {
 	return false
 }
 
+// oneHotBodies6: for every known option code, the body of a generated instance with all octets zero, then with each
+// single octet in turn set to 1, 0x80 and 0xff (and the pairs first-octet/each-octet): the shapes in which one field
+// says something and everything else says nothing - a flag set in an otherwise empty rule, a prefix length without a
+// prefix, a lifetime without an address.
+func oneHotBodies6(r *Run, f func(code uint16, body []byte)) {
+	for _, c := range knownV6Codes {
+		seen := map[int]bool{}
+		for tries := 0; tries < 6; tries++ {
+			L := len(r.genOptCode(c, 1).wire)
+			if seen[L] || L == 0 || L > 48 {
+				continue
+			}
+			seen[L] = true
+			z := make([]byte, L)
+			f(c, append([]byte{}, z...))
+			for i := 0; i < L; i++ {
+				for _, v := range []byte{1, 0x80, 0xff} {
+					b := append([]byte{}, z...)
+					b[i] = v
+					f(c, b)
+					if i > 0 {
+						b2 := append([]byte{}, b...)
+						b2[0] = 0x80
+						f(c, b2)
+					}
+				}
+			}
+		}
+	}
+}
+
 // sweepSmallPayloads6: every option code the library knows, with EVERY payload of one and of two octets (all 65536
 // values of each 16-bit field: ports, times, codes, flags - no value is special unless the RFC says so), inside a
 // message: decoding, encoding and decoding again gives the value first decoded, and a third encoding equals the second.
@@ -1212,6 +1247,28 @@ func sweepSmallPayloads6(r *Run) int {
 			try([]byte{byte(v >> 8), byte(v)})
 		}
 	}
+	// ... and the one-field-says-something bodies of every option type
+	oneHotBodies6(r, func(code uint16, body []byte) {
+		o, err := dhcpv6.ParseOption(dhcpv6.OptionCode(code), append([]byte{}, body...))
+		n++
+		if err != nil {
+			return
+		}
+		e1 := safeToBytes(o)
+		cs := fmt.Sprintf("option %d payload %x", code, body)
+		o2, err := dhcpv6.ParseOption(dhcpv6.OptionCode(code), append([]byte{}, e1...))
+		if err != nil {
+			r.Fail("v6-reencoded-rejected", cs, "the encoding of an accepted option is rejected: "+err.Error())
+			return
+		}
+		if d1, d2 := dumpLine(dumpOpt(o)), dumpLine(dumpOpt(o2)); d1 != d2 {
+			r.Fail("v6-not-a-fixpoint", cs, "decode, encode, decode gives another value: "+firstDiff(d1, d2))
+			return
+		}
+		if e2 := safeToBytes(o2); !bytes.Equal(e1, e2) {
+			r.Fail("v6-not-a-fixpoint", cs, fmt.Sprintf("second encoding %x differs from the first %x", e2, e1))
+		}
+	})
 	return n
 }
 
